@@ -48,6 +48,9 @@ type Ctx struct {
 	Capped      string // non-empty: a cap was hit (named)
 	curSpec     json.RawMessage
 	Notes       []string
+	// FinishNow writes the shard result and ends the worker process (used after a hang was recorded:
+	// the hung goroutine shares process globals, nothing more can be explored safely in this process).
+	FinishNow func()
 }
 
 func newCtx(id, tier string, seed int64, shard, n int) *Ctx {
@@ -347,13 +350,22 @@ func Main(args []string) int {
 		fmt.Sscanf(worker, "%d/%d", &i, &n)
 		c := newCtx(id, tier, seed, i, n)
 		c.Deadline = time.Now().Add(ck.maxDur(tier))
-		ck.run(c)
-		b, _ := json.Marshal(c.result())
-		if err := os.WriteFile(out, b, 0o644); err != nil {
-			fmt.Fprintln(os.Stderr, err)
-			return 2
+		write := func() int {
+			b, _ := json.Marshal(c.result())
+			if err := os.WriteFile(out, b, 0o644); err != nil {
+				fmt.Fprintln(os.Stderr, err)
+				return 2
+			}
+			return 0
 		}
-		return 0
+		c.FinishNow = func() {
+			if c.Capped == "" {
+				c.Capped = "worker ended early after a hang was recorded"
+			}
+			os.Exit(write())
+		}
+		ck.run(c)
+		return write()
 	}
 	return drive(ck, tier, seed)
 }
